@@ -12,7 +12,11 @@ RULE = (
     "refused activation, call f, call g, call h} in three worlds: W1 probes f>a, f>b, g>f>a, f(a)>b, f>b with "
     "a max() reduction (which raises at completion when its window is empty) and a non-tooling overlay on "
     "f>a; W2 f>a, f(a)>b, an Overlay.tapping block on f>a and a total probe g(c, f(b)) whose subscriber "
-    "raises when g ends; W3 f>a plus an overlay on h>e and a probe on h>d where h is permanently tooled; "
+    "raises when g ends; W3 f>a plus an overlay on h>e and a probe on h>d where h is permanently tooled; W4 f>a, f>b, an overlay "
+    "object on f>a that may be entered a second time while it is entered, and an overlay derived from it by "
+    "fork() (sharing its handler) with one more handler, nested in any order; W5 f>a, the overlay on f>a and a "
+    "probe on the generator function t, with {start, advance, close, drop} of one generator of t as extra "
+    "operations (what the generator body itself delivers is not asserted, only the state and every call); "
     "each history is replayed on a fresh world through the real API with a boring model (set of "
     "active probes => expected per-probe streams) in lock-step; after every step: every active probe got "
     "exactly the expected new events, inactive probes none, instrumentation counters equal the model's, "
@@ -44,6 +48,11 @@ def h(x):
     d = x + 5
     e = d * 3
     return e
+
+def t(n):
+    for i in range(n):
+        v = i * 10
+        yield v
 '''
 
 # slot -> kind, selector, style (global: any order; with: LIFO among with-slots), functions it tools,
@@ -59,11 +68,21 @@ SLOTS = {
     7: ("raising-total", "g(c, f(b))", "global", ("f", "g"), False),  # total probe whose subscriber raises
     8: ("overlay", "h > e", "with", (), False),             # overlay on the permanently tooled function h
     9: ("probe", "h > d", "global", (), False),             # probe on the tooled function h
+    10: ("fork", "f > b", "with", (), False),               # fork of overlay 4 (shares its handler) plus a tap on f > b
+    11: ("probe", "t > v", "global", ("t",), False),        # probe on the generator function t
 }
+# slots whose activation instruments f for b
+INSTRUMENTS_B = (1, 3, 5, 7)
+# the with-style overlay that W4 may enter a second time while it is already entered (same object)
+REENTRANT = 4
 WORLDS = {
     "W1": (0, 1, 2, 3, 4, 5),
     "W2": (0, 3, 6, 7),
     "W3": (0, 8, 9),
+    # W4: the same overlay object entered twice, and an overlay derived from it by fork(), nested in any order
+    "W4": (0, 1, 4, 10),
+    # W5: a generator of t is started, advanced, closed or dropped at any point of the history
+    "W5": (0, 4, 11),
 }
 
 
@@ -92,8 +111,11 @@ def expected_events(slot, fn, x, instrumented_a):
 class World:
     def __init__(self):
         self.ns = world.make_module(SRC)
-        self.f, self.g, self.h = self.ns["f"], self.ns["g"], self.ns["h"]
-        self.orig = {"f": self.f.__code__, "g": self.g.__code__, "h": self.h.__code__}
+        self.f, self.g, self.h, self.t = self.ns["f"], self.ns["g"], self.ns["h"], self.ns["t"]
+        self.orig = {"f": self.f.__code__, "g": self.g.__code__, "h": self.h.__code__, "t": self.t.__code__}
+        self.depth = {}
+        self.gen = None
+        self.base4 = None
         self.globals_before = {k: v for k, v in self.ns.items()}
         self.probes = {}
         self.streams = {i: [] for i in SLOTS}
@@ -109,15 +131,15 @@ class System:
     # ---- model
     def initial_model(self):
         # (active global slots in activation order, with-stack, calls so far)
-        return ((), (), 0)
+        return ((), (), 0, "none")
 
     def enabled(self, model):
-        act, wstack, calls = model
+        act, wstack, calls, gen = model
         ops = []
         for i in self.slots:
             if SLOTS[i][2] == "global":
                 ops.append(("act", i) if i not in act else ("deact", i))
-            elif i not in wstack:
+            elif i not in wstack or (self.wname == "W4" and i == REENTRANT and wstack.count(i) < 2):
                 ops.append(("enter", i))
         if wstack:
             ops.append(("leave", wstack[-1]))
@@ -127,36 +149,52 @@ class System:
         ops += [("call", "f"), ("call", "g")]
         if self.wname == "W3":
             ops.append(("call", "h"))
+        if self.wname == "W5":
+            ops += [("gen", "start")] if gen == "none" else [("gen", "next"), ("gen", "close"), ("gen", "drop")]
         return ops
 
     def step_model(self, model, op):
-        act, wstack, calls = model
+        act, wstack, calls, gen = model
         if op[0] == "act":
-            return ((act + (op[1],)), wstack, calls), "ok"
+            return ((act + (op[1],)), wstack, calls, gen), "ok"
         if op[0] == "deact":
-            return (tuple(i for i in act if i != op[1]), wstack, calls), "ok"
+            return (tuple(i for i in act if i != op[1]), wstack, calls, gen), "ok"
         if op[0] == "enter":
-            return (act, wstack + (op[1],), calls), "ok"
+            return (act, wstack + (op[1],), calls, gen), "ok"
         if op[0] in ("leave", "leave_exc"):
-            return (act, wstack[:-1], calls), "ok"
+            return (act, wstack[:-1], calls, gen), "ok"
         if op[0] == "act_bad":
             return model, "refused"
+        if op[0] == "gen":
+            # what the generator's own body delivers, and to whom, is C09's subject: not asserted here
+            gen = {"start": 1, "next": (gen + 1 if gen != "none" and gen < 3 else "none"), "close": "none", "drop": "none"}[op[1]]
+            return (act, wstack, calls, gen), "ok"
         if op[0] == "call":
             x = calls + 1
             active = list(act) + list(wstack)
             inst_a = any(SLOTS[s][4] for s in active)
-            exp = {s: expected_events(s, op[1], x, inst_a) for s in active}
+            inst_b = any(s in INSTRUMENTS_B for s in active)
+            exp = {}
+            for s in set(active):
+                if s == 10:
+                    exp[s] = [{"b": (x + 1) * 2}] if inst_b else []
+                else:
+                    exp[s] = expected_events(s, op[1], x, inst_a)
+            # the handler of overlay 4 is installed once per entered occurrence of 4 and of its fork 10
+            n4 = active.count(4) + active.count(10)
+            if n4:
+                exp[4] = expected_events(4, op[1], x, inst_a) * n4
             exp = tuple(sorted((s, tuple(map(_canon, e))) for s, e in exp.items() if e))
             if op[1] == "g" and 7 in active:
                 # the total probe's subscriber raises when g's record is published at g's exit
-                return (act, wstack, x), ("raised-call", "ZeroDivisionError", exp)
+                return (act, wstack, x, gen), ("raised-call", "ZeroDivisionError", exp)
             result = (x + 5) * 3 if op[1] == "h" else (x + 1) * 2
-            return (act, wstack, x), ("result", result, exp)
+            return (act, wstack, x, gen), ("result", result, exp)
         raise KeyError(op)
 
     def model_key(self, model):
-        act, wstack, calls = model
-        return (act, wstack)
+        act, wstack, calls, gen = model
+        return (act, wstack, gen)
 
     def outcome_class(self, model):
         return (self.wname, len(model[0]), len(model[1]))
@@ -170,11 +208,27 @@ class System:
         from ptera import probing, BaseOverlay, Immediate, Overlay
         from ptera.selector import select
 
-        env = {"f": w.f, "g": w.g, "h": w.h}
+        env = {"f": w.f, "g": w.g, "h": w.h, "t": w.t}
         kind, text = SLOTS[slot][0], SLOTS[slot][1]
-        if kind == "overlay":
-            sel = select(text, env=env)
+
+        def overlay(slot):
+            sel = select(SLOTS[slot][1], env=env)
             return BaseOverlay(Immediate(sel, trigger=lambda ev, s=slot: w.streams[s].append({k: c.value for k, c in ev.items()})))
+
+        if kind == "overlay":
+            if slot == REENTRANT:
+                # one object per world: its fork (slot 10) shares the handler
+                if w.base4 is None:
+                    w.base4 = overlay(slot)
+                return w.base4
+            return overlay(slot)
+        if kind == "fork":
+            if w.base4 is None:
+                w.base4 = overlay(REENTRANT)
+            ol = w.base4.fork()
+            sel = select(text, env=env)
+            ol.add(Immediate(sel, trigger=lambda ev, s=slot: w.streams[s].append({k: c.value for k, c in ev.items()})))
+            return ol
         if kind == "tapping":
             return Overlay.tapping(select(text, env=env), dest=w.streams[slot])
         p = probing(text, env=env)
@@ -190,9 +244,30 @@ class System:
     def apply(self, w, op):
         try:
             if op[0] in ("act", "enter"):
-                p = self._make(w, op[1])
+                p = w.probes[op[1]] if op[1] in w.probes else self._make(w, op[1])
                 w.probes[op[1]] = p
+                w.depth[op[1]] = w.depth.get(op[1], 0) + 1
                 p.__enter__()
+                return "ok"
+            if op[0] == "gen":
+                import gc
+
+                for s in w.streams.values():
+                    del s[:]
+                if op[1] == "start":
+                    w.gen = w.t(3)
+                    next(w.gen)
+                elif op[1] == "next":
+                    try:
+                        next(w.gen)
+                    except StopIteration:
+                        w.gen = None
+                elif op[1] == "close":
+                    w.gen.close()
+                    w.gen = None
+                else:
+                    w.gen = None
+                    gc.collect()
                 return "ok"
             if op[0] == "deact":
                 p = w.probes.pop(op[1])
@@ -205,12 +280,14 @@ class System:
                     return "ok"
                 p.__exit__(None, None, None)
                 return "ok"
-            if op[0] == "leave":
-                w.probes.pop(op[1]).__exit__(None, None, None)
-                return "ok"
-            if op[0] == "leave_exc":
+            if op[0] in ("leave", "leave_exc"):
+                w.depth[op[1]] -= 1
+                p = w.probes[op[1]] if w.depth[op[1]] else w.probes.pop(op[1])
+                if op[0] == "leave":
+                    p.__exit__(None, None, None)
+                    return "ok"
                 e = ValueError("leaving the block by an exception")
-                r = w.probes.pop(op[1]).__exit__(ValueError, e, None)
+                r = p.__exit__(ValueError, e, None)
                 return "ok" if not r else "swallowed-the-exception"
             if op[0] == "act_bad":
                 from ptera import probing
@@ -228,6 +305,7 @@ class System:
                     del s[:]
                 w.calls += 1
                 fn = {"f": w.f, "g": w.g, "h": w.h}[op[1]]
+                w.depth = {k: v for k, v in w.depth.items() if v}
                 try:
                     r = fn(w.calls)
                 except ZeroDivisionError:
@@ -247,25 +325,25 @@ class System:
 
         pairs = I.current_pairs()
         slot_of = {}
-        for s, p in w.probes.items():
+        for s, p in sorted(w.probes.items()):
             ol = getattr(p, "_ol", p)
             for h in getattr(ol, "handlers", ()):
-                slot_of[id(h)] = s
+                slot_of.setdefault(id(h), s)
         hc = None if pairs is None else "unknown" if pairs is I.UNKNOWN else tuple(slot_of.get(id(acc), "?") for _, acc in pairs)
         fns = []
-        for name in ("f", "g", "h"):
+        for name in ("f", "g", "h", "t"):
             fn = w.ns[name]
             fns.append((name, I.stack_state(fn), fn.__code__ is w.orig[name]))
-        return (hc, tuple(sorted(w.probes)), tuple(fns), I.n_global_probes())
+        return (hc, tuple(sorted(w.probes)), tuple(fns), I.n_global_probes(), w.gen is not None)
 
     def invariant(self, w, model):
         from ptera.overlay import HandlerCollection
         from ptera import probe as probe_mod
 
-        act, wstack, calls = model
+        act, wstack, calls, gen = model
         probs = []
         active = list(act) + list(wstack)
-        for name in ("f", "g"):
+        for name in ("f", "g", "t"):
             n = sum(1 for s in active if name in SLOTS[s][3])
             fn = w.ns[name]
             from pv.core import introspect as I
@@ -298,11 +376,18 @@ class System:
         return probs
 
     def close(self, w):
-        for s in list(w.probes):
+        if w.gen is not None:
             try:
-                w.probes.pop(s).__exit__(None, None, None)
+                w.gen.close()
             except BaseException:
                 pass
+        for s in list(w.probes):
+            p = w.probes.pop(s)
+            for _ in range(max(1, w.depth.get(s, 1))):
+                try:
+                    p.__exit__(None, None, None)
+                except BaseException:
+                    pass
         world.reset_context()
 
 
